@@ -34,14 +34,14 @@ theorem less_strict_total_order :
 /-! ### index / queue agreement -/
 
 /-- **Uniqueness index and queue agree, in every reachable state**: `nextTime[id] = w` exactly when the queue holds
-an item of `id`, that item has `when = w`, there is one item per id, `when = next + Offset`, and the queue is
-ordered by `Less` (so `Min`/`Ascend` see the earliest item first). Release and re-Schedule therefore always find
+an item of `id`, that item has `when = w`, there is one item per id, `when = next + Offset` (`Offset` = the whole
+seconds of the task's offset, a positive sub-second rest rounded up: `secUp`), and the queue is ordered by `Less` (so `Min`/`Ascend` see the earliest item first). Release and re-Schedule therefore always find
 and remove THE entry of the task. -/
 theorem index_queue_agree (E : Env) (hincr : Incr E.nx) (acts : List Act) :
     let s := runActs E {} acts
     (∀ id w, aget s.index id = some w ↔ ∃ it ∈ s.queue, it.id = id ∧ it.whn = w) ∧
     (∀ a ∈ s.queue, ∀ b ∈ s.queue, a.id = b.id → a = b) ∧
-    (∀ it ∈ s.queue, it.whn = it.next + it.off) ∧
+    (∀ it ∈ s.queue, it.whn = it.next + secUp it.off) ∧
     Sorted s.queue := by
   have h := (good_runActs hincr acts (good_init E)).q
   exact ⟨h.idx, h.uniq, h.whn, h.sorted⟩
@@ -51,8 +51,9 @@ theorem index_queue_agree (E : Env) (hincr : Incr E.nx) (acts : List Act) :
 /-- **Every history the scheduler can produce is accepted by the property monitor** (Kap/Spec/C17.lean): every
 executor entry is for a task that is scheduled at that moment (released-is-silent), is the next occurrence of its
 schedule after the last-scheduled time / the previous run (consecutive-in-order-once), happens at or after
-occurrence+offset on the clock (never-early), while no run of the same task is in progress or awaiting its
-checkpoint (no-overlap), is told `runAt = occurrence+offset`; every checkpoint is that of the run that just
+occurrence+offset on the clock, with the EXACT offset in milliseconds (never-early), while no run of the same task
+is in progress or awaiting its checkpoint (no-overlap), is told `runAt = occurrence + whole seconds of the offset`;
+every checkpoint is that of the run that just
 finished and lies above the previous checkpoint of the same scheduling (checkpoint-moves-forward). -/
 theorem history_accepted (E : Env) (hincr : Incr E.nx) (acts : List Act) :
     Accepts E.nx (runActs E {} acts).trace.reverse := by
@@ -75,19 +76,20 @@ theorem ops_history_accepted (E : Env) (hincr : Incr E.nx) (ops : List (List Nat
 /-- **Exactly once, in order, only while scheduled, never early, never overlapping.**
 Take any reachable history and any executor entry `start id occ runAt` in it, and let `tr` be the history before
 that entry. Then, in terms of `tr` alone:
-  * the last Schedule/Release call for `id` was a Schedule (`epochOf`: with schedule `sc`, offset `off`,
-    last-scheduled time `last`) — nothing runs for a released or never scheduled task;
+  * the last Schedule/Release call for `id` was a Schedule (`epochOf`: with schedule `sc`, offset `off` in
+    MILLISECONDS, last-scheduled time `last`) — nothing runs for a released or never scheduled task;
   * no run of `id` is in progress (`inProgress`: every earlier entry has had its checkpoint);
   * the occurrences run since that Schedule call, followed by `occ`, are exactly the CONSECUTIVE occurrences
     `Next(last), Next(Next(last)), …` of the schedule (`Chain`) — none skipped, none repeated, in order;
-  * `occ + off ≤` the scheduler's clock (`lastClock`), and the executor is told `runAt = occ + off`. -/
+  * `occ + off ≤` the scheduler's clock (`lastClock`) — in milliseconds, the exact offset, nothing truncated —
+    and the executor is told `runAt = occ +` the whole seconds of the offset (truncated toward zero). -/
 theorem every_run_is_the_next_due_occurrence (E : Env) (hincr : Incr E.nx) (acts : List Act)
     (post tr : List Ev) (id : Nat) (occ runAt : Int)
     (h : (runActs E {} acts).trace = post ++ Ev.start id occ runAt :: tr) :
     ∃ sc off last, epochOf id tr = some (sc, off, last) ∧
       inProgress id tr = false ∧
       Chain E.nx sc last (startsSince id tr ++ [occ]) (E.nx sc occ) ∧
-      occ + off ≤ lastClock tr ∧ runAt = occ + off := by
+      occ * 1000 + off ≤ lastClock tr * 1000 ∧ runAt = occ + off.tdiv 1000 := by
   have hacc := history_accepted E hincr acts
   rw [h] at hacc
   obtain ⟨m, hm⟩ := accepts_prefix hacc
@@ -120,14 +122,14 @@ main loop is running, or a tick is waiting for it, or the timer is armed with a 
 This covers the line `s.timer.Reset(ts.Sub(it.When()))` of the main loop, which re-arms with the NEGATIVE duration
 now − when and leaves `s.when` stale: its deadline lies in the past, so the loop is woken again immediately and
 re-tests the head (a busy wait with a real clock — wasteful, but no due run is late by more than one loop turn and
-no API call blocks, because every turn releases the mutex). Hypothesis: no schedule action has a positive sub-second
-offset part (`frac ≤ 0`); with one, `Schedule` arms the timer up to 999 ms after the item's whole-second `when`. -/
-theorem timer_covers_head (E : Env) (hincr : Incr E.nx) (acts : List Act) (hfrac : ∀ a ∈ acts, a.fracOk) :
+no API call blocks, because every turn releases the mutex). Sub-second offsets included: `Schedule` arms the timer
+with the exact offset, which is never after the item's `when` (the offset's whole seconds, ROUNDED UP). -/
+theorem timer_covers_head (E : Env) (hincr : Incr E.nx) (acts : List Act) :
     let s := runActs E {} acts
     s.queue ≠ [] → s.spinning = true ∨ s.tick = true ∨
       ∃ d, s.timer = some d ∧ (d ≤ s.now * 1000 ∨ ∀ it ∈ s.queue, d ≤ it.whn * 1000) := by
   intro s hne
-  have ht : TInv s := tinv_runActs hincr acts hfrac tinv_init (good_init E)
+  have ht : TInv s := tinv_runActs hincr acts tinv_init (good_init E)
   cases hw : s.swhen with
   | none => exact absurd (ht.k2 hw) hne
   | some w =>
@@ -144,11 +146,11 @@ state that is quiescent — the main loop cannot move (parked at its `select` wi
 being able to dispatch) and the timer cannot fire — every queued item that is due (`when ≤ now`) is waiting for a
 BUSY worker. So a due run is only ever delayed by a run in progress on its worker. -/
 theorem quiescent_due_runs_wait_for_busy_worker (E : Env) (hincr : Incr E.nx) (acts : List Act)
-    (hfrac : ∀ a ∈ acts, a.fracOk) (hq : Quiescent E (runActs E {} acts)) :
+    (hq : Quiescent E (runActs E {} acts)) :
     ∀ it ∈ (runActs E {} acts).queue, it.whn ≤ (runActs E {} acts).now →
       (aget (runActs E {} acts).busy (E.wk it.id)).isSome = true :=
   quiescent_due_busy (good_runActs hincr acts (good_init E))
-    (tinv_runActs hincr acts hfrac tinv_init (good_init E)) hq
+    (tinv_runActs hincr acts tinv_init (good_init E)) hq
 
 /-- **The main loop always comes to rest, and `settle` always ends in a quiescent state**: started in ANY state
 (reachable or not), with no mid-pass race, what the harness does after every op — let the loop run, fire the timer,
@@ -166,9 +168,7 @@ sequence of harness ops — each op followed by the main loop running until it r
 mid-pass race (empty skip set; all earlier ops may have had arbitrary races), every queued item that is due is
 waiting for a BUSY worker. No `Quiescent` hypothesis any more: it is proved (`settle_ends_quiescent`). -/
 theorem due_runs_dispatched_after_racy_ops (E : Env) (hincr : Incr E.nx) (hwk : ∀ id, E.wk id < 30)
-    (ops : List (List Nat × Op))
-    (hfrac : ∀ p ∈ ops, match p.2 with | .sched _ _ _ _ frac => frac ≤ 0 | _ => True)
-    (hlast : ∀ p ∈ ops.getLast?, p.1 = []) :
+    (ops : List (List Nat × Op)) (hlast : ∀ p ∈ ops.getLast?, p.1 = []) :
     ∀ it ∈ (runOps E {} ops).queue, it.whn ≤ (runOps E {} ops).now →
       (aget (runOps E {} ops).busy (E.wk it.id)).isSome = true := by
   by_cases hne : ops = []
@@ -176,22 +176,18 @@ theorem due_runs_dispatched_after_racy_ops (E : Env) (hincr : Incr E.nx) (hwk : 
     intro it hit
     simp [runOps] at hit
   · have hq := runOps_quiescent E 30 hwk (by decide) ops {} hne hlast
-    obtain ⟨acts, hacts, hfr⟩ := runOps_acts_frac E ops hfrac {}
+    obtain ⟨acts, hacts⟩ := runOps_acts E ops {}
     rw [hacts] at hq ⊢
-    exact quiescent_due_runs_wait_for_busy_worker E hincr acts hfr hq
+    exact quiescent_due_runs_wait_for_busy_worker E hincr acts hq
 
 /-- **Liveness, full-strength op-level statement**: after every sequence of harness ops (with no mid-pass race)
 every due item waits for a busy worker — a due occurrence whose worker is idle has been dispatched. -/
 theorem due_runs_dispatched :
     ∀ (E : Env), Incr E.nx → (∀ id, E.wk id < 30) → ∀ (ops : List Op),
-    (∀ op ∈ ops, match op with | .sched _ _ _ _ frac => frac ≤ 0 | _ => True) →
     let s := runOps E {} (ops.map (fun op => ([], op)))
     ∀ it ∈ s.queue, it.whn ≤ s.now → (aget s.busy (E.wk it.id)).isSome = true := by
-  intro E hincr hwk ops hfrac
-  refine due_runs_dispatched_after_racy_ops E hincr hwk _ ?_ ?_
-  · intro p hp
-    obtain ⟨op, hop, rfl⟩ := List.mem_map.mp hp
-    exact hfrac op hop
+  intro E hincr hwk ops
+  refine due_runs_dispatched_after_racy_ops E hincr hwk _ ?_
   · intro p hp
     rw [List.getLast?_map] at hp
     simp only [Option.mem_def, Option.map_eq_some_iff] at hp
@@ -218,25 +214,29 @@ example :
       Ev.start 2 15 15 ∈ (runOps E10 {} ((ops ++ [Op.done 1 .ok true]).map (fun op => ([], op)))).trace := by
   decide
 
-/-! ### sub-second offsets (finding subsecond-offset-truncated) -/
+/-! ### sub-second offsets (defect subsecond-offset-truncated, repaired in /repo) -/
 
-/-- All clauses above speak about `off`, the whole-second `Item.Offset` the scheduler stores. For the EXACT offset
-`off` s + `frac` ms they carry over when the sub-second part is not positive … -/
-theorem never_early_exact_of_nonpositive_fraction (E : Env) (hincr : Incr E.nx) (acts : List Act)
+/-- **Never early, with the exact offset**: every executor entry happens when the scheduler's clock has reached
+occurrence + offset IN MILLISECONDS — also for an offset with a sub-second part, whose positive rest the scheduler
+now rounds up to the next whole second instead of dropping it (before the repair such a run started up to 999 ms
+early). -/
+theorem never_early_exact (E : Env) (hincr : Incr E.nx) (acts : List Act)
     (post tr : List Ev) (id : Nat) (occ runAt : Int)
     (h : (runActs E {} acts).trace = post ++ Ev.start id occ runAt :: tr) :
-    ∃ sc off last, epochOf id tr = some (sc, off, last) ∧
-      ∀ frac : Int, frac ≤ 0 → (occ + off) * 1000 + frac ≤ lastClock tr * 1000 := by
+    ∃ sc offms last, epochOf id tr = some (sc, offms, last) ∧ occ * 1000 + offms ≤ lastClock tr * 1000 := by
   obtain ⟨sc, off, last, h1, _, _, h4, _⟩ := every_run_is_the_next_due_occurrence E hincr acts post tr id occ runAt h
-  exact ⟨sc, off, last, h1, fun frac hf => by omega⟩
+  exact ⟨sc, off, last, h1, h4⟩
 
-/-- … and FAIL for a positive one (counterexample, replayed on the real code by
-corpus/C17/finding-subsecond-offset-truncated.ops): offset 2.5 s, occurrence 10 is due at 12.5 s, a second task
-(offset 2 s) wakes the loop at 12 s and occurrence 10 of task 1 is handed to the executor with the clock at 12 s. -/
-theorem subsecond_offset_runs_early :
-    let s := runActs E10 {} [.sched 1 0 2 0 500, .sched 2 1 2 0 0, .adv 12, .fire, .consume, .iter []]
-    Ev.start 1 10 12 ∈ s.trace ∧ s.now = 12 ∧ earlyBySubsecond 2 500 10 s.now = true ∧
-      (10 + 2) * 1000 + 500 > s.now * 1000 := by
+/-- The scenario of the former counterexample (replayed on the real code by
+corpus/C17/fixed-subsecond-offset-truncated.ops): offset 2.5 s, occurrence 10 is due at 12.5 s; a second task (offset
+2 s) wakes the loop at 12 s. Occurrence 10 of task 1 is NOT handed to the executor with the clock at 12 s (the truncating
+code did that); it is at 13 s, and the executor is told `runAt` = 12 as before. -/
+theorem subsecond_offset_not_early :
+    let s12 := runActs E10 {} [.sched 1 0 2 0 500, .sched 2 1 2 0 0, .adv 12, .fire, .consume, .iter []]
+    let s13 := runActs E10 s12 [.done 2 .ok true, .adv 1, .fire, .consume, .iter []]
+    s12.trace.reverse = [Ev.sched 1 0 2500 0, Ev.sched 2 1 2000 0, Ev.clock 12, Ev.start 2 10 12] ∧
+      s13.trace.reverse = s12.trace.reverse ++
+        [Ev.finish 2 10, Ev.ckpt 2 10, Ev.clock 13, Ev.start 1 10 12] := by
   decide
 
 /-! ### the coordinator (shapes regenerated from task/backend/coordinator/coordinator.go) -/
@@ -293,14 +293,18 @@ three executor entries (task 1 at 10 and 20, task 2 at 15), in that order. -/
 example :
     (runActs E10 {} [.sched 1 0 3 0 0, .sched 2 1 0 5 0, .adv 40, .fire, .consume, .iter [], .iter [], .done 1 .ok true,
         .iter [], .rel 2, .done 2 .err false, .iter [], .iter []]).trace.reverse =
-      [Ev.sched 1 0 3 0, Ev.sched 2 1 0 5, Ev.clock 40, Ev.start 1 10 13, Ev.finish 1 10, Ev.ckpt 1 10,
+      [Ev.sched 1 0 3000 0, Ev.sched 2 1 0 5, Ev.clock 40, Ev.start 1 10 13, Ev.finish 1 10, Ev.ckpt 1 10,
        Ev.start 2 15 15, Ev.rel 2, Ev.finish 2 15, Ev.onErr 2, Ev.ckpt 2 15, Ev.onErr 2, Ev.start 1 20 23] := by
   decide
 
 /-- The monitor is not trivially true: it rejects an early run, a skipped occurrence, a repeated occurrence, an
-overlapping run, a run after Release, and a checkpoint that moves backwards. -/
-example : ¬ Accepts E10.nx [Ev.sched 1 0 3 0, Ev.clock 12, Ev.start 1 10 13] := by decide
-example : Accepts E10.nx [Ev.sched 1 0 3 0, Ev.clock 13, Ev.start 1 10 13] := by decide
+overlapping run, a run after Release, and a checkpoint that moves backwards (offsets in ms; an offset of 2.5 s
+may not run at 12 s, and is told runAt = occurrence + 2 s). -/
+example : ¬ Accepts E10.nx [Ev.sched 1 0 3000 0, Ev.clock 12, Ev.start 1 10 13] := by decide
+example : Accepts E10.nx [Ev.sched 1 0 3000 0, Ev.clock 13, Ev.start 1 10 13] := by decide
+example : ¬ Accepts E10.nx [Ev.sched 1 0 2500 0, Ev.clock 12, Ev.start 1 10 12] := by decide
+example : Accepts E10.nx [Ev.sched 1 0 2500 0, Ev.clock 13, Ev.start 1 10 12] := by decide
+example : Accepts E10.nx [Ev.sched 1 0 (-2500) 0, Ev.clock 8, Ev.start 1 10 8] := by decide
 example : ¬ Accepts E10.nx [Ev.sched 1 0 0 0, Ev.clock 30, Ev.start 1 20 20] := by decide
 example : ¬ Accepts E10.nx [Ev.sched 1 0 0 0, Ev.clock 30, Ev.start 1 10 10, Ev.finish 1 10, Ev.ckpt 1 10,
     Ev.start 1 10 10] := by decide
